@@ -25,6 +25,7 @@ RULE = ("for (suite, sk, message) from Hypothesis and an entry point (Verify of 
 ASSUMPTIONS = ["model signatures vf/model/blssig.py (anchored by nine published Ethereum signatures)",
                "the secret key behind every public key used is known by construction"]
 ENGINE = "hypothesis"
+TECHNIQUE = ("property-based testing (Hypothesis) over a constructed candidate union against an analytic oracle (uniqueness of BLS signatures) evaluated by an independent model; call-sequence sub-check for domain separation")
 ARMS = ("canonical", "other_key", "other_msg", "other_suite", "pop_confusion", "aug_no_prefix", "negated",
         "doubled", "plus_torsion", "identity", "bitflip", "reencoded", "random_point", "random_bytes")
 _REQ = [f"arm:{a}" for a in ARMS] + ["verdict:True", "verdict:False", "reached_pairing:False-verdict",
